@@ -1,3 +1,4 @@
+(* verif:needs c05 *)
 (* C16: the cancelled call and the later calls on the same engine are one history in the C05 wire format; the model
    (Search.v / SearchC.v: the flag flips inside the k-th leaf evaluation) replays it with the same k. *)
 let run args = Drv_c05.run args
